@@ -740,7 +740,7 @@ def check_valid(part, node, name, cls, items, case, tag):
         yield
         return
     # 1. start values
-    for p in ref.per:
+    for p in list(ref.per) + [q for q in (ref.prior or {}) if q not in ref.per]:
         sv = ref.start_value(p)
         if sv is None or p not in model or model[p]['kind'] == 'command':
             continue
@@ -748,12 +748,13 @@ def check_valid(part, node, name, cls, items, case, tag):
         got = mod.parameters[p].value
         part.traces += 1
         if not same(model[p], got, want):
-            part.violation(f'C10:start-value:{model[p]["kind"]}:configured-{source}:cache-differs', case,
-                           f'{where}: cache start value of {p} is {got!r} ({type(got).__name__}), the configured {source} converted '
-                           f'to the datatype is {want!r}')
+            part.violation(f'C10:start-value:{model[p]["kind"]}:{"persistent-" if model[p].get("persistent") else ""}'
+                           f'configured-{source}:cache-differs', case,
+                           f'{where}: cache start value of {p} is {got!r} ({type(got).__name__}), the {source} converted '
+                           f'to the datatype is {want!r} (earlier-run file: {ref.prior})')
         else:
             part.outcomes[f'start-value-{source}:ok'] += 1
-        if 'default' in ref.per[p]:
+        if 'default' in ref.per.get(p, {}):
             want_d = conv(model[p], ref.per[p]['default'])
             if not same(model[p], mod.parameters[p].default, want_d):
                 part.violation(f'C10:default-property:{model[p]["kind"]}:not-applied', case,
@@ -761,13 +762,29 @@ def check_valid(part, node, name, cls, items, case, tag):
     # 2. description
     desc = node.describe()['modules'].get(name)
     part.transitions += 1
-    if desc is None:
+    hidden = ref.modprops.get('export') is False      # the module is configured not to be exported
+    if hidden:
+        part.traces += 1
+        if desc is not None:
+            part.violation('C10:module-property:export:module-configured-as-not-exported-is-described', case,
+                           f'{where}: export=False but the module is in the description')
+        else:
+            part.outcomes['module-property:export-false:not-described'] += 1
+        desc = {'accessibles': {}}
+    elif desc is None:
         part.violation(f'C10:module-not-described', case, f'{where}: module missing in the description')
         yield
         return
     for key, val in ref.modprops.items():
         part.traces += 1
-        if key == 'group':
+        if key == 'export':
+            continue
+        if hidden and key in ('group', 'visibility'):
+            ok = getattr(mod, key, None) == val
+        elif key in MODPROP_DEFAULT and val == MODPROP_DEFAULT[key]:
+            # configured as what it is anyway: absent from the description or shown as configured
+            ok = desc.get(key) in (None, val, VISIBILITY.get(val)) and getattr(mod, key, None) == val
+        elif key == 'group':
             ok = desc.get('group') == val
         elif key == 'visibility':
             ok = desc.get('visibility') in (val, VISIBILITY[val])
@@ -792,6 +809,8 @@ def check_valid(part, node, name, cls, items, case, tag):
             if cfg['export'] is False:
                 ok = wname not in accs
                 wname = None
+            elif hidden:
+                ok, wname = True, None
             else:
                 ok = cfg['export'] in accs and wname not in accs
                 wname = cfg['export']
@@ -802,6 +821,8 @@ def check_valid(part, node, name, cls, items, case, tag):
                                f'{where}: export={cfg["export"]!r} but the described accessibles are {list(accs)}')
                 continue
             export_checks.append((p, wname))
+        if hidden:
+            wname = None      # nothing of a module which is not exported is described: judged on the module itself
         acc = accs.get(wname) if wname else None
         if wname and acc is None:
             part.violation(f'C10:describe:accessible-missing', case, f'{where}: {wname} not described: {list(accs)}')
@@ -900,6 +921,53 @@ def check_valid(part, node, name, cls, items, case, tag):
                            f'{where}: write_{p} got {raw[idx[0]][2]!r}, configured value converted is {want!r}')
         else:
             part.outcomes['init-write:once-before-poll'] += 1
+    # 3a. the EFFECT of module properties
+    if hidden:
+        conn0 = node.connect()
+        p0 = next(iter(model))
+        rep = node.request(conn0, f'read {name}:{model[p0]["wire"]}')
+        node.disconnect(conn0)
+        part.traces += 1
+        part.transitions += 1
+        if rep[0].startswith('error') and rep[2][0] in ('NoSuchModule', 'NoSuchParameter'):
+            part.outcomes['module-property:export-false:not-addressable'] += 1
+        else:
+            part.violation('C10:module-property:export:module-configured-as-not-exported-answers-requests', case,
+                           f'{where}: export=False but read {name}:{model[p0]["wire"]} -> {rep[0]}')
+    if 'omit_unchanged_within' in ref.modprops:
+        window = ref.modprops['omit_unchanged_within']
+        cand = [p for p, m in model.items() if p in mod.parameters and m.get('default') is not None
+                and mod.parameters[p].export and mod.parameters[p].readerror is None and mod.parameters[p].constant is None]
+        def announcable(pobj):      # a start value outside narrowed limits can not be announced as a value
+            try:
+                pobj.datatype(pobj.value)
+                return True
+            except Exception:
+                return False
+        for p in [c for c in cand if announcable(mod.parameters[c])][:2]:
+            pobj = mod.parameters[p]
+            part.traces += 2
+            if pobj.omit_unchanged_within != window:
+                part.violation('C10:module-property:omit_unchanged_within:parameters-use-another-window', case,
+                               f'{where}: omit_unchanged_within={window!r} configured, parameter {p} uses {pobj.omit_unchanged_within!r}')
+            # behaviour: the unchanged value announced 3 times within 0.02 s
+            sent = []
+            saved_cb = mod.updateCallback
+            mod.updateCallback = lambda _m, po, _sent=sent: _sent.append(po.name)
+            try:
+                t0 = (pobj.timestamp or 0) + 1000
+                for dt_ in (0.0, 0.01, 0.02):
+                    mod.announceUpdate(p, pobj.value, timestamp=t0 + dt_)
+                    part.transitions += 1
+            finally:
+                mod.updateCallback = saved_cb
+            want_n = 3 if window <= 0.01 else 1
+            if len(sent) != want_n:
+                part.violation(f'C10:module-property:omit_unchanged_within:{"updates-omitted-although-window-is-zero" if want_n == 3 else "updates-not-omitted-within-window"}', case,
+                               f'{where}: omit_unchanged_within={window!r}: 3 announcements of the unchanged value of {p} within '
+                               f'0.02 s produced {len(sent)} updates, expected {want_n}')
+            else:
+                part.outcomes[f'omit-window-effect:{want_n}-of-3-updates-sent'] += 1
     # 3b. an export override must be applied as a whole: the parameter answers under the configured name only
     #     (probed after the start-up sequence, because it reads the parameter)
     for p, wname in export_checks:
@@ -1040,6 +1108,38 @@ def process_again(node):
     return None
 
 
+class PersistEnv:
+    """generalConfig.logdir pointed at a scratch directory holding the persistent files an earlier run left"""
+    def __init__(self, names, refs, equipment_id):
+        from pathlib import Path
+        from frappy.lib import generalConfig
+        self.gc = generalConfig
+        self.saved = generalConfig._config
+        self.dir = tempfile.mkdtemp(prefix='c10-persist-')
+        self.files = {}
+        for name, ref in zip(names, refs):
+            if ref.prior is not None:
+                self.files[f'{equipment_id}.{name}.json'] = json.dumps(ref.prior)
+        generalConfig._config = dict(self.saved or {}, logdir=Path(self.dir))
+        self.reset()
+
+    def reset(self):
+        """the state before the server (re)processes the configuration: exactly the files of the earlier run"""
+        pdir = os.path.join(self.dir, 'persistent')
+        shutil.rmtree(pdir, ignore_errors=True)
+        os.makedirs(pdir)
+        for fn, text in self.files.items():
+            with open(os.path.join(pdir, fn), 'w', encoding='utf-8') as f:
+                f.write(text)
+
+    def close(self):
+        self.gc._config = self.saved
+        shutil.rmtree(self.dir, ignore_errors=True)
+
+
+PERSISTENT_CLASSES = {'GP'}
+
+
 def run_spec(part, spec, tag='direct', cfg=None, node_cfg=None, attribute=True, shared=False):
     """spec = [[cls, [entry ids], [error ids]], ...] -> build through the DSL (or take cfg loaded from files), start, judge"""
     case = {'spec': spec, 'mode': tag}
@@ -1052,12 +1152,21 @@ def run_spec(part, spec, tag='direct', cfg=None, node_cfg=None, attribute=True, 
     snap = cfg_snapshot(cfg)
     failing = [name for name, (_c, _e, errs) in zip(names, spec) if errs]
     part.evaluations += 1
-    node, refused = start_node(cfg, node_cfg)
-    part.transitions += 1
+    env = None
+    if any(cls in PERSISTENT_CLASSES for cls, _e, _r in spec):
+        env = PersistEnv(names, [Ref(cls, it) for (cls, _e, _r), it in zip(spec, items)],
+                         (node_cfg or {}).get('equipment_id', 'verif_node'))
+    node = None
     try:
+        node, refused = start_node(cfg, node_cfg)
+        node.c10_env = env
+        part.transitions += 1
         return _judge(part, spec, tag, cfg, attribute, case, items, names, failing, node, refused, snap)
     finally:
-        close_node(node)
+        if node is not None:
+            close_node(node)
+        if env is not None:
+            env.close()
 
 
 def check_again(part, node, names, case, desc, snap, cfg, first):
@@ -1067,6 +1176,8 @@ def check_again(part, node, names, case, desc, snap, cfg, first):
         part.violation('C10:configuration-objects-changed-by-processing', case,
                        f'{desc}: the configuration handed to the server was {snap[:400]} and is {cfg_snapshot(cfg)[:400]} after processing')
         return
+    if getattr(node, 'c10_env', None) is not None:
+        node.c10_env.reset()      # the second processing starts from the same files of the earlier run
     errors = process_again(node)
     part.transitions += 1
     if first[0] == 'refused':
